@@ -617,6 +617,13 @@ class Pass2(CompilePass):
            node.base_var not in self.compilation.global_consts:
             # Implicitly defined variable
             decl = VarDeclClause(node.base_var, None)
+
+            # we need to manually set the parent_routine field for
+            # this node, because it does not have a parent and the
+            # usual parent_routine attribute does not work for it (it
+            # would resolve the name in the main routine).
+            decl._parent_routine = node.parent_routine
+
             if node.array_indices:
                 # It's an array; implicit arrays have a range of 0 to
                 # 10 for all their dimensions.
@@ -633,11 +640,6 @@ class Pass2(CompilePass):
                 node.parent_routine.static_vars[node.base_var] = decl.type
             else:
                 node.parent_routine.local_vars[node.base_var] = decl.type
-
-            # we need to manually set the parent_routine field for
-            # this node, because it does not have a parent and the
-            # usual parent_routine attribute does not work for it.
-            decl._parent_routine = node.parent_routine
 
             node.implicit_decl = decl
 
